@@ -394,6 +394,30 @@ theorem ctor_radians_ignored (d m : ℝ) (rest : List ℝ) (s : GenR.Shape) (r :
   refine ⟨rfl, ?_, rfl⟩
   cases rest <;> rfl
 
+/-- `**` with a float or Angle exponent and a positive base (plain and in-place), and the reflected
+    `b ** a` with a positive number base: `Angle` of the real power, in range and congruent;
+    `0.0 ** negative` raises ZeroDivisionError. -/
+theorem pow_real (a : GenR.Angle) (y : ℝ) :
+    (0 < a.deg → ∃ r : GenR.Angle, GenR.angle_pow a (.flt y) = .ok r ∧ |r.deg| < 360 ∧
+      ∃ k : ℤ, a.deg ^ y = r.deg + 360 * k) ∧
+    (a.deg = 0 → y < 0 → GenR.angle_pow a (.flt y) = .error .zeroDivisionError) ∧
+    (∀ b : GenR.Angle, GenR.angle_pow a (.ang b) = GenR.angle_pow a (.flt b.deg)) ∧
+    (0 < y → ∃ r : GenR.Angle, GenR.angle_rpow a (.flt y) = .ok r ∧ |r.deg| < 360 ∧
+      ∃ k : ℤ, y ^ a.deg = r.deg + 360 * k) := by
+  have key : ∀ x w : ℝ, 0 < x → PR.ppow x w = .ok (x ^ w) := by
+    intro x w hx
+    unfold PR.ppow
+    by_cases hw : w = 0
+    · rw [if_pos hw, hw, Real.rpow_zero]
+    · rw [if_neg hw, if_neg hx.ne', if_neg (not_lt.mpr hx.le)]; rfl
+  refine ⟨fun ha => ?_, fun ha hy => ?_, fun b => rfl, fun hy => ?_⟩
+  · refine ⟨GenR.mk (a.deg ^ y), ?_, (RefineR.reduce_deg_spec _).1, (RefineR.reduce_deg_spec _).2.1⟩
+    unfold GenR.angle_pow; simp only [key _ _ ha]
+  · unfold GenR.angle_pow PR.ppow
+    simp only [ha, if_neg hy.ne, hy, if_true]
+  · refine ⟨GenR.mk (y ^ a.deg), ?_, (RefineR.reduce_deg_spec _).1, (RefineR.reduce_deg_spec _).2.1⟩
+    unfold GenR.angle_rpow GenR.Operand.val; simp only [key _ _ hy]
+
 /-- "the radian view is the value times pi/180". -/
 theorem rad_view (a : GenR.Angle) : GenR.angle_rad a = a.deg * (Real.pi / 180) := rfl
 
